@@ -187,6 +187,13 @@ def check_tree(tree, rec, n_expected):
         exp_path2 = "/" + "/".join(str(x.data) for x in anc)
         chk("get_path:add_self=False", n.get_path(add_self=False) == exp_path2, [me, n.get_path(add_self=False), exp_path2])
         chk("get_path:separator", n.get_path(separator="|") == "|" + "|".join(str(x.data) for x in anc + [n]), [me])
+        # all option combinations: add_self x separator x repr
+        for add_self in (True, False):
+            for sep in ("/", " > "):
+                for rp, fn in (("{node.data_id}", lambda x: f"{x.data_id}"), ("<{node.name}>", lambda x: f"<{x.data}>")):
+                    exp_c = sep + sep.join(fn(x) for x in (anc + [n] if add_self else anc))
+                    got_c = n.get_path(add_self=add_self, separator=sep, repr=rp)
+                    chk("get_path:add_self,separator,repr", got_c == exp_c, [me, add_self, sep, rp, got_c, exp_c])
         chk("count_descendants", n.count_descendants() == len(desc), [me, n.count_descendants(), len(desc)])
         leaves = [x for x in desc if not kids[id(x)]]
         chk("count_descendants:leaves_only", n.count_descendants(leaves_only=True) == len(leaves), [me, n.count_descendants(leaves_only=True), len(leaves)])
